@@ -174,14 +174,13 @@ Theorem C11_delete_v0_refuted :
 Proof. exact delete_v0_refuted. Qed.
 
 (* ------------------------------------------------------------------------------------------ *)
-(* Open known findings (known_findings.json): the clauses "each page's decoded content is what the content
-   edits imply" and "adding a resource never takes away a resource" FAIL on the classes below.  Each class is
-   a boolean predicate on the document before the call (mirrored by the harness), each witness is computed on
-   the faithful model and replayed on the crate by ./check.  Content and resources are those of the abstract
-   document of Spec/AbstractDoc.v (ISO 32000 semantics: nearest inherited Resources; Contents a stream or an
-   array of streams behind any references). *)
-(* repaired (fix: commit recorded for C11-resources-shadow in known_findings.json): before it, get_or_create_resources
-   gave a page that only inherits Resources an EMPTY own dictionary, hiding the inherited one (Model/EditV0.v) *)
+(* Repaired findings (known_findings.json, status fixed): for each, the code as it was (Model/EditV0.v) shows the defect on a
+   concrete document -- replayed on the crate before the repair through the harness -- and the repaired code (Model/Edit.v,
+   what the runner executes) behaves on the same document.  Content and resources are those of the abstract document of
+   Spec/AbstractDoc.v (ISO 32000 semantics: nearest inherited Resources; Contents a stream or an array of streams behind any
+   references). *)
+(* C11-resources-shadow: before the repair, get_or_create_resources gave a page that only inherits Resources an EMPTY own
+   dictionary, hiding the inherited one *)
 Theorem C11_resources_shadow_v0_refuted :
   KnownClass_resources_shadow ex_doc (3, 0)%N = true /\
   exists d', add_xobject_v0 ex_doc (3, 0)%N K_Im1 (5, 0)%N = (d', OOk) /\
@@ -197,53 +196,91 @@ Theorem C11_resources_shadow_repaired_example :
              effective_resources (d_objects d') (4, 0)%N = Some [(K_Font, K_F1, ORef 6 0)].
 Proof. exact resources_shadow_repaired_example. Qed.
 
-Theorem C11_content_shared_refuted :
-  KnownClass_content_shared ex_doc (3, 0)%N = true /\
-  exists d', step O0 ex_doc (ChangePageContent (3, 0)%N (bs "BT ET")) = (d', OOk) /\
+(* C11-content-shared: before the repair, change_page_content rewrote the one stream of a page in place whoever else showed
+   it -- page 4 of ex_doc changed with page 3 *)
+Theorem C11_content_shared_v0_refuted :
+  exists d', change_page_content_v0 O0 ex_doc (3, 0)%N (bs "BT ET") = (d', OOk) /\
              page_content decode0 (d_objects ex_doc) (4, 0)%N = Some (bs "q Q") /\
              page_content decode0 (d_objects d') (4, 0)%N = Some (bs "BT ET").
-Proof. exact content_shared_witness. Qed.
+Proof. exact content_shared_v0_witness. Qed.
 
-Theorem C11_content_indirect_refuted :
-  KnownClass_content_indirect ex_doc_ind (3, 0)%N = true /\
-  exists d', step O0 ex_doc_ind (AddPageContents (3, 0)%N (bs "BT ET")) = (d', OOk) /\
-             page_content decode0 (d_objects ex_doc_ind) (3, 0)%N = Some (bs "q Q") /\
-             get_page_content O0 (d_objects ex_doc_ind) (3, 0)%N = Some (bs "q Q") /\
-             page_content decode0 (d_objects d') (3, 0)%N = None /\
-             get_page_content O0 (d_objects d') (3, 0)%N = Some (bs "BT ET").
-Proof. exact content_indirect_witness. Qed.
+(* the repaired code on the same document: the shared stream 5 is left alone, page 3 gets the fresh stream 8 *)
+Theorem C11_content_shared_repaired_example :
+  is_content_stream_of_another_page ex_doc (5, 0)%N (3, 0)%N = true /\
+  exists d', step O0 ex_doc (ChangePageContent (3, 0)%N (bs "BT ET")) = (d', OOk) /\
+             page_content decode0 (d_objects d') (3, 0)%N = Some (bs "BT ET") /\
+             page_content decode0 (d_objects d') (4, 0)%N = Some (bs "q Q") /\
+             lookup (d_objects d') (5, 0)%N = lookup (d_objects ex_doc) (5, 0)%N /\
+             lookup (d_objects d') (8, 0)%N = Some (new_stream (bs "BT ET")).
+Proof. exact content_shared_repaired_example. Qed.
 
-(* I_content for add_page_contents, outside the class C11-content-indirect (pages that are direct dictionary objects
-   whose Contents is absent, a reference that directly names a stream, or a direct array of such references
-   -- [plain_contents]): for every stream decoder, every document satisfying the allocation invariant and every
-   content, the call succeeds, the abstract page then shows its old content followed by what the new stream
-   decodes to, every other plain page shows what it showed before, and the trailer is unchanged.
-   (change_page_content, change_content_stream, add_to_page_content and the resource operations: further down.) *)
-Theorem C11_add_page_contents_content :
-  forall (decode : dict -> bytes -> bytes) d page pd c,
-    doc_wf d -> alloc_ok d -> (d_max_id d < U32_MAX)%N ->
-    lookup (d_objects d) page = Some (ODict pd) -> plain_contents (d_objects d) pd ->
-    exists d' old,
-      add_page_contents d page c = (d', OOk) /\
-      page_content decode (d_objects d) page = Some old /\
-      page_content decode (d_objects d') page = Some (old ++ decode (new_dict c) c) /\
-      (forall q qd, q <> page -> lookup (d_objects d) q = Some (ODict qd) -> plain_contents (d_objects d) qd ->
-                    page_content decode (d_objects d') q = page_content decode (d_objects d) q) /\
-      d_trailer d' = d_trailer d.
-Proof. exact add_page_contents_plain. Qed.
+(* C11-content-indirect: before the repair, Contents was looked at without following references.  Page 3 of ex_doc_ind has
+   Contents -> 8 0 R, the array object [5 0 R]: add_page_contents lost the old content, change_page_content changed nothing *)
+Theorem C11_content_indirect_v0_refuted :
+  (exists d', add_page_contents_v0 ex_doc_ind (3, 0)%N (bs "BT ET") = (d', OOk) /\
+              page_content decode0 (d_objects ex_doc_ind) (3, 0)%N = Some (bs "q Q") /\
+              get_page_content O0 (d_objects ex_doc_ind) (3, 0)%N = Some (bs "q Q") /\
+              page_content decode0 (d_objects d') (3, 0)%N = None /\
+              get_page_content O0 (d_objects d') (3, 0)%N = Some (bs "BT ET")) /\
+  change_page_content_v0 O0 ex_doc_ind (3, 0)%N (bs "BT ET") = (ex_doc_ind, OOk).
+Proof. exact content_indirect_v0_witness. Qed.
 
-(* non-vacuity of the hypotheses of C11_add_page_contents_content: a concrete instance *)
-Theorem C11_content_example_partial :
-  KnownClass_content_indirect ex_doc (3, 0)%N = false /\
-  exists d', step O0 ex_doc (AddPageContents (3, 0)%N (bs "BT ET")) = (d', OOk) /\
-             page_content decode0 (d_objects d') (3, 0)%N = Some (bs "q Q" ++ bs "BT ET") /\
-             page_content decode0 (d_objects d') (4, 0)%N = Some (bs "q Q").
-Proof. exact content_ok_example. Qed.
+Theorem C11_content_indirect_repaired_example :
+  (exists d', step O0 ex_doc_ind (AddPageContents (3, 0)%N (bs "BT ET")) = (d', OOk) /\
+              page_content decode0 (d_objects d') (3, 0)%N = Some (bs "q Q" ++ bs "BT ET") /\
+              get_page_content O0 (d_objects d') (3, 0)%N = Some (bs "q Q" ++ bs "BT ET") /\
+              page_content decode0 (d_objects d') (4, 0)%N = Some (bs "q Q")) /\
+  (exists d', step O0 ex_doc_ind (ChangePageContent (3, 0)%N (bs "BT ET")) = (d', OOk) /\
+              page_content decode0 (d_objects d') (3, 0)%N = Some (bs "BT ET") /\
+              page_content decode0 (d_objects d') (4, 0)%N = Some (bs "q Q")).
+Proof. exact content_indirect_repaired_example. Qed.
 
 (* ------------------------------------------------------------------------------------------ *)
-(* I_content for the other content operations, on plain pages (direct dictionary objects; the complement of the class
-   C11-content-indirect).  [decode] is any stream decoder; [unshared pd qd]: page qd does not name the stream that
-   change_page_content rewrites in place for page pd (naming it is the class C11-content-shared). *)
+(* I_content: "each page's decoded content is what the sequence of content edits implies".  No class of pages is excluded any
+   more.  [decode] is ANY stream decoder; [page_content decode m p] is the content of the abstract page (Spec/AbstractDoc.v):
+   defined (Some) when p leads -- through any reference objects -- to a dictionary whose Contents is absent, or leads --
+   through any references -- to a stream or to an array whose items all lead to streams.  "Another page" = a page whose
+   dictionary is another object ([get_object_mut_id m q]: the object the references from q end at; two ids that end at the same
+   dictionary are the same page).  A page whose content is undefined before the call (an ill-typed Contents: an item that is
+   no stream, a dangling reference -- which a new object could capture) is not spoken about; the harness decides those shapes
+   on the implementation with the reader get_page_content. *)
+
+(* add_page_contents: for every document satisfying the allocation invariant, every page whose content is defined and every
+   new content, the call succeeds, the page then shows its old content followed by what the new stream decodes to, every
+   other page with a defined content shows what it showed before, and the trailer is unchanged *)
+Theorem C11_add_page_contents_content :
+  forall (decode : dict -> bytes -> bytes) d page c old,
+    alloc_ok d -> (d_max_id d < U32_MAX)%N ->
+    page_content decode (d_objects d) page = Some old ->
+    exists d',
+      add_page_contents d page c = (d', OOk) /\
+      page_content decode (d_objects d') page = Some (old ++ decode (new_dict c) c) /\
+      (forall q b, get_object_mut_id (d_objects d) q <> get_object_mut_id (d_objects d) page ->
+                   page_content decode (d_objects d) q = Some b -> page_content decode (d_objects d') q = Some b) /\
+      d_trailer d' = d_trailer d.
+Proof. exact add_page_contents_content. Qed.
+
+Theorem C11_add_to_page_content_content :
+  forall (decode : dict -> bytes -> bytes) d page ops old,
+    alloc_ok d -> (d_max_id d < U32_MAX)%N ->
+    page_content decode (d_objects d) page = Some old ->
+    let c := Writer.encode_content ops in
+    exists d',
+      add_to_page_content d page ops = (d', OOk) /\
+      page_content decode (d_objects d') page = Some (old ++ decode (new_dict c) c) /\
+      (forall q b, get_object_mut_id (d_objects d) q <> get_object_mut_id (d_objects d) page ->
+                   page_content decode (d_objects d) q = Some b -> page_content decode (d_objects d') q = Some b) /\
+      d_trailer d' = d_trailer d.
+Proof. exact atpc_content. Qed.
+
+(* non-vacuity: page 3 of ex_doc_solo sits behind the reference object 9 and its Contents is the indirect array 8 = [5 0 R] *)
+Theorem C11_content_example :
+  page_content decode0 (d_objects ex_doc_solo) (9, 0)%N = Some (bs "q Q") /\
+  let d' := fst (add_page_contents ex_doc_solo (9, 0)%N (bs "BT ET")) in
+  page_content decode0 (d_objects d') (9, 0)%N = Some (bs "q Q" ++ bs "BT ET") /\
+  page_content decode0 (d_objects d') (3, 0)%N = Some (bs "q Q" ++ bs "BT ET") /\
+  page_content decode0 (d_objects d') (4, 0)%N = Some [].
+Proof. exact apc_example. Qed.
 
 (* change_content_stream: nothing but the named object changes, and only when it is a stream; it becomes
    compress (set_plain_content old new-content) *)
@@ -256,39 +293,43 @@ Theorem C11_change_content_stream_frame :
     ((forall sd c0, lookup (d_objects d) id <> Some (OStream sd c0)) -> d' = d).
 Proof. exact ccs_frame. Qed.
 
-(* every plain page shows its items with the rewritten stream decoding to the new stream: pages that do not name it are
-   unchanged, a page whose only item it is shows exactly that *)
+(* ... and what the pages show afterwards, whatever their shape: a page that does not show the stream ([page_shows_stream]:
+   neither its Contents nor an item of the array its Contents leads to ends at the stream) keeps its content; a page that
+   shows this stream alone ([single_stream]) shows exactly the new data; a page whose Contents leads to an array shows its
+   items with every item that ends at the stream replaced by the new data ([expect]) *)
 Theorem C11_change_content_stream_content :
   forall (decode : dict -> bytes -> bytes) O d id c sd c0,
     lookup (d_objects d) id = Some (OStream sd c0) ->
     let s' := rewritten_stream O sd c0 c in
     let d' := change_content_stream O d id c in
-    forall q qd, lookup (d_objects d) q = Some (ODict qd) -> plain_contents (d_objects d) qd ->
-      lookup (d_objects d') q = Some (ODict qd) /\
-      page_content decode (d_objects d') q = expect decode (d_objects d) id (decode (s_dict s') (s_content s')) (cur_list qd) /\
-      (~ In (ORef (fst id) (snd id)) (cur_list qd) ->
-         page_content decode (d_objects d') q = page_content decode (d_objects d) q) /\
-      (cur_list qd = [ORef (fst id) (snd id)] ->
-         page_content decode (d_objects d') q = Some (decode (s_dict s') (s_content s'))).
+    let nd := decode (s_dict s') (s_content s') in
+    (forall q b, page_shows_stream (d_objects d) id q = false ->
+                 page_content decode (d_objects d) q = Some b -> page_content decode (d_objects d') q = Some b) /\
+    (forall q qd x, get_dictionary (d_objects d) q = Some qd -> dict_get qd K_Contents = Some x ->
+                    single_stream (d_objects d) x = Some id -> page_content decode (d_objects d') q = Some nd) /\
+    (forall q qd x r l b, get_dictionary (d_objects d) q = Some qd -> dict_get qd K_Contents = Some x ->
+                          dereference (d_objects d) x = Some (r, OArr l) -> page_content decode (d_objects d) q = Some b ->
+                          page_content decode (d_objects d') q = expect decode (d_objects d) id nd l).
 Proof. exact ccs_content. Qed.
 
-(* change_page_content on a plain page with a Contents entry succeeds; the page then shows exactly what the ONE stream
-   written decodes to (the old stream rewritten in place, or a fresh stream when Contents is an array of 0 or >= 2 items);
-   every other plain page that does not name the rewritten stream is unchanged; the trailer is unchanged *)
+(* change_page_content on ANY page that has a Contents entry, whatever the entry is (a stream or an array behind references,
+   an array with items that are no streams, a number, a dangling reference): the call succeeds; the page then shows exactly
+   what the ONE stream written decodes to -- the stream the page showed alone, rewritten in place (only when no other page of
+   the document shows it: [is_content_stream_of_another_page] = false), or a fresh stream; every other page of the document
+   with a defined content shows what it showed before; the trailer is unchanged *)
 Theorem C11_change_page_content_content :
   forall (decode : dict -> bytes -> bytes) O d page pd c x,
-    doc_wf d -> alloc_ok d -> (d_max_id d < U32_MAX)%N ->
-    lookup (d_objects d) page = Some (ODict pd) -> plain_contents (d_objects d) pd ->
-    dict_get pd K_Contents = Some x ->
+    alloc_ok d -> (d_max_id d < U32_MAX)%N ->
+    get_dictionary (d_objects d) page = Some pd -> dict_get pd K_Contents = Some x ->
     exists d' sd' c',
       change_page_content O d page c = (d', OOk) /\
-      ((exists id sd c0, rewritten pd = Some id /\ lookup (d_objects d) id = Some (OStream sd c0) /\
+      ((exists id sd c0, single_stream (d_objects d) x = Some id /\ is_content_stream_of_another_page d id page = false /\
+                         lookup (d_objects d) id = Some (OStream sd c0) /\
                          OStream sd' c' = stream_obj (rewritten_stream O sd c0 c)) \/
-       (rewritten pd = None /\ OStream sd' c' = new_stream c)) /\
+       OStream sd' c' = new_stream c) /\
       page_content decode (d_objects d') page = Some (decode sd' c') /\
-      (forall q qd, q <> page -> lookup (d_objects d) q = Some (ODict qd) -> plain_contents (d_objects d) qd ->
-                    unshared pd qd ->
-                    page_content decode (d_objects d') q = page_content decode (d_objects d) q) /\
+      (forall q b, In q (page_iter d) -> get_object_mut_id (d_objects d) q <> get_object_mut_id (d_objects d) page ->
+                   page_content decode (d_objects d) q = Some b -> page_content decode (d_objects d') q = Some b) /\
       d_trailer d' = d_trailer d.
 Proof. exact cpc_content. Qed.
 
@@ -297,47 +338,36 @@ Proof. exact cpc_content. Qed.
    representation invariant of the IndexMap behind Dictionary *)
 Theorem C11_change_page_content_shows_new_content :
   forall O d page pd c x,
-    doc_wf d -> alloc_ok d -> (d_max_id d < U32_MAX)%N ->
+    alloc_ok d -> (d_max_id d < U32_MAX)%N ->
     (forall id sd c0, lookup (d_objects d) id = Some (OStream sd c0) -> FilterProofsDict.dict_wf sd) ->
     o_inflate O (o_deflate O c) = c -> o_deflate O c <> [] ->
-    lookup (d_objects d) page = Some (ODict pd) -> plain_contents (d_objects d) pd ->
-    dict_get pd K_Contents = Some x ->
+    get_dictionary (d_objects d) page = Some pd -> dict_get pd K_Contents = Some x ->
     exists d',
       change_page_content O d page c = (d', OOk) /\
       page_content (decode_c09 O) (d_objects d') page = Some c /\
-      (forall q qd, q <> page -> lookup (d_objects d) q = Some (ODict qd) -> plain_contents (d_objects d) qd ->
-                    unshared pd qd ->
-                    page_content (decode_c09 O) (d_objects d') q = page_content (decode_c09 O) (d_objects d) q) /\
+      (forall q b, In q (page_iter d) -> get_object_mut_id (d_objects d) q <> get_object_mut_id (d_objects d) page ->
+                   page_content (decode_c09 O) (d_objects d) q = Some b -> page_content (decode_c09 O) (d_objects d') q = Some b) /\
       d_trailer d' = d_trailer d.
 Proof. exact cpc_shows_new_content. Qed.
 
 Theorem C11_change_page_content_no_contents :
-  forall O d page pd c, lookup (d_objects d) page = Some (ODict pd) -> dict_get pd K_Contents = None ->
+  forall O d page pd c, get_dictionary (d_objects d) page = Some pd -> dict_get pd K_Contents = None ->
     change_page_content O d page c = (d, OErr).
 Proof. exact cpc_no_contents. Qed.
 
-Theorem C11_add_to_page_content_content :
-  forall (decode : dict -> bytes -> bytes) d page pd ops,
-    doc_wf d -> alloc_ok d -> (d_max_id d < U32_MAX)%N ->
-    lookup (d_objects d) page = Some (ODict pd) -> plain_contents (d_objects d) pd ->
-    let c := Writer.encode_content ops in
-    exists d' old,
-      add_to_page_content d page ops = (d', OOk) /\
-      page_content decode (d_objects d) page = Some old /\
-      page_content decode (d_objects d') page = Some (old ++ decode (new_dict c) c) /\
-      (forall q qd, q <> page -> lookup (d_objects d) q = Some (ODict qd) -> plain_contents (d_objects d) qd ->
-                    page_content decode (d_objects d') q = page_content decode (d_objects d) q) /\
-      d_trailer d' = d_trailer d.
-Proof. exact atpc_content. Qed.
-
-(* non-vacuity of the hypotheses of C11_change_page_content_shows_new_content *)
+(* non-vacuity of the hypotheses of C11_change_page_content_shows_new_content, on the in-place branch: page 3 of ex_doc_solo
+   has the indirect array 8 = [5 0 R] as its Contents, no other page shows stream 5, which is rewritten in place *)
 Theorem C11_change_page_content_example :
-  doc_wf ex_doc /\ alloc_ok ex_doc /\ (d_max_id ex_doc < U32_MAX)%N /\
-  (forall id sd c0, lookup (d_objects ex_doc) id = Some (OStream sd c0) -> FilterProofsDict.dict_wf sd) /\
+  alloc_ok ex_doc_solo /\ (d_max_id ex_doc_solo < U32_MAX)%N /\
+  (forall id sd c0, lookup (d_objects ex_doc_solo) id = Some (OStream sd c0) -> FilterProofsDict.dict_wf sd) /\
   o_inflate O0 (o_deflate O0 (bs "BT ET")) = bs "BT ET" /\ o_deflate O0 (bs "BT ET") <> [] /\
-  lookup (d_objects ex_doc) (3, 0)%N = Some (ODict ex_page3) /\ plain_contents (d_objects ex_doc) ex_page3 /\
-  dict_get ex_page3 K_Contents = Some (ORef 5 0) /\
-  page_content (decode_c09 O0) (d_objects (fst (change_page_content O0 ex_doc (3, 0)%N (bs "BT ET")))) (3, 0)%N = Some (bs "BT ET").
+  get_dictionary (d_objects ex_doc_solo) (3, 0)%N = Some ex_page3 /\
+  dict_get ex_page3 K_Contents = Some (ORef 8 0) /\
+  single_stream (d_objects ex_doc_solo) (ORef 8 0) = Some (5, 0)%N /\
+  is_content_stream_of_another_page ex_doc_solo (5, 0)%N (3, 0)%N = false /\
+  let d' := fst (change_page_content O0 ex_doc_solo (3, 0)%N (bs "BT ET")) in
+  page_content (decode_c09 O0) (d_objects d') (3, 0)%N = Some (bs "BT ET") /\
+  lookup (d_objects d') (5, 0)%N = Some (OStream [(K_Length, OInt 5)] (bs "BT ET")) /\ d_max_id d' = 9%N.
 Proof. exact cpc_example. Qed.
 
 (* ------------------------------------------------------------------------------------------ *)
@@ -439,14 +469,17 @@ Theorem C11_frame_keeping_ops :
 Proof. exact keeps_frame. Qed.
 
 (* ------------------------------------------------------------------------------------------ *)
-(* I_count.  (a) On ANY object graph: the Count bookkeeping of delete_pages along the Parent chain.  [anc_chain m r l]: l is
-   the chain of dictionary objects the loop meets when it follows Parent from r in m (it ends at a missing Parent, a
-   non-reference Parent or a non-dictionary), none with Count = i64::MIN.  On a chain of pairwise different objects the loop
-   terminates within the fuel delete_pages gives it (never the "hang" outcome), decrements the integer Count of EVERY
-   ancestor by exactly one, leaves everything else alone; delete_pages([n]) = delete_object(page n) followed by exactly
-   that.  (b) The tree-level clause is C11_delete_pages_tree below. *)
+(* I_count.  (a) On ANY object graph: the Count bookkeeping of delete_pages along the Parent chain (the code after the repairs
+   of C11-count-indirect and C11-page-reference-object).  [ref_chain m r l]: l is the chain of dictionary objects the loop meets
+   when it follows Parent from r in m (it ends at a missing Parent, a non-reference Parent or a non-dictionary); each is recorded
+   with [read_count m d] -- its Count when the entry is an integer or leads through references to one (ISO 32000-1 7.3.10: any
+   value may be an indirect object) --, none with Count = i64::MIN.  On a chain of pairwise different objects the loop
+   terminates within the fuel delete_pages gives it (never the "hang" outcome), sets the Count entry of EVERY ancestor that
+   has such a Count to that number minus one, leaves everything else alone; delete_pages([n]) = delete_object(page n) followed
+   by exactly that, on the Parent chain of the page dictionary -- the object stored under the page id, or the dictionary a
+   reference object stored there leads to.  (b) The tree-level clause is C11_delete_pages_tree below. *)
 Theorem C11_count_loop_chain :
-  forall m r l fuel, anc_chain m r l -> NoDup (map anc_id l) ->
+  forall m r l fuel, ref_chain m r l -> NoDup (map anc_id l) ->
     (length l < S (length m))%nat /\
     ((length l < fuel)%nat -> count_loop fuel m r = (dec_all m l, LOk)) /\
     (forall x, ~ In x (map anc_id l) -> lookup (dec_all m l) x = lookup m x) /\
@@ -454,25 +487,60 @@ Theorem C11_count_loop_chain :
        lookup (dec_all m l) id =
        Some (ODict (match c with Some z => dict_set d K_Count (OInt (z - 1)) | None => d end))).
 Proof.
-  intros m r l fuel C ND. split; [apply (anc_chain_fuel m r l C ND)|].
-  split; [intro Hf; apply count_loop_chain; assumption|].
+  intros m r l fuel C ND. split; [apply (ref_chain_fuel m r l C ND)|].
+  split; [intro Hf; apply count_loop_ref_chain; assumption|].
   split; [apply dec_all_other | intros id d c; apply dec_all_member; exact ND].
 Qed.
 
 Theorem C11_delete_pages_one_chain :
-  forall d n pid d1 pd l,
+  forall d n pid d1 page rp pd l,
     assoc_N (get_pages d) n = Some pid ->
-    delete_object d pid = Some (d1, Some (ODict pd)) ->
-    anc_chain (d_objects d1) (as_ref (dict_get pd K_Parent)) l -> NoDup (map anc_id l) ->
+    delete_object d pid = Some (d1, Some page) ->
+    dereference (d_objects d1) page = Some (rp, ODict pd) ->
+    ref_chain (d_objects d1) (as_ref (dict_get pd K_Parent)) l -> NoDup (map anc_id l) ->
     delete_pages d [n] = (with_objs d1 (dec_all (d_objects d1) l), LOk).
 Proof. exact delete_pages_one. Qed.
+
+(* the two repaired findings: before the repairs (Model/EditV0.v) delete_pages left the Count of the Pages node at 2 with one
+   page left -- when the Count is the indirect object 9 (ex_doc_cind), and when page 3 is the reference object 3 0 obj 8 0 R
+   (ex_doc_pref); both replayed on the crate through the harness before the repairs *)
+Theorem C11_count_indirect_v0_refuted :
+  page_iter ex_doc_cind = [(3, 0); (4, 0)]%N /\ count_at ex_doc_cind = Some 2%Z /\
+  exists d', delete_pages_v0 ex_doc_cind [1%N] = (d', LOk) /\ page_iter d' = [(4, 0)%N] /\ count_at d' = Some 2%Z.
+Proof. exact count_indirect_v0_witness. Qed.
+
+Theorem C11_page_reference_v0_refuted :
+  page_iter ex_doc_pref = [(3, 0); (4, 0)]%N /\ count_at ex_doc_pref = Some 2%Z /\
+  exists d', delete_pages_v0 ex_doc_pref [1%N] = (d', LOk) /\ page_iter d' = [(4, 0)%N] /\ count_at d' = Some 2%Z.
+Proof. exact page_reference_v0_witness. Qed.
+
+(* the repaired code on the same documents: the Count is the number of pages left; an indirect Count entry becomes the number *)
+Theorem C11_count_repaired_examples :
+  (exists d', delete_pages ex_doc_cind [1%N] = (d', LOk) /\ page_iter d' = [(4, 0)%N] /\ count_at d' = Some 1%Z /\
+              lookup (d_objects d') (2, 0)%N =
+                Some (ODict [(K_Type, OName K_Pages); (K_Kids, OArr [ORef 4 0]); (K_Count, OInt 1)])) /\
+  (exists d', delete_pages ex_doc_pref [1%N] = (d', LOk) /\ page_iter d' = [(4, 0)%N] /\ count_at d' = Some 1%Z).
+Proof. exact count_repaired_examples. Qed.
+
+(* both shapes at once, as an instance of C11_delete_pages_one_chain: the page object is the reference 8 0 R, the chain holds
+   the Pages node 2 with the Count 2 read through the reference 9 0 R *)
+Theorem C11_count_refs_example :
+  page_iter ex_doc_refs = [(3, 0); (4, 0)]%N /\
+  exists d1 pd l,
+    delete_object ex_doc_refs (3, 0)%N = Some (d1, Some (ORef 8 0)) /\
+    dereference (d_objects d1) (ORef 8 0) = Some (Some (8, 0)%N, ODict pd) /\
+    ref_chain (d_objects d1) (as_ref (dict_get pd K_Parent)) l /\ map anc_id l = [(2, 0)%N] /\ map snd l = [Some 2%Z] /\
+    page_iter (fst (delete_pages ex_doc_refs [1%N])) = [(4, 0)%N] /\
+    option_map (fun o => match o with ODict nd => dict_get nd K_Count | _ => None end)
+               (lookup (d_objects (fst (delete_pages ex_doc_refs [1%N]))) (2, 0)%N) = Some (Some (OInt 1)).
+Proof. exact count_refs_example. Qed.
 
 (* non-vacuity: deleting page 1 of the example document: its one ancestor's Count goes from 2 to 1, page 2 remains *)
 Theorem C11_count_example_partial :
   exists d1 pd l,
     assoc_N (get_pages ex_doc) 1 = Some (3, 0)%N /\
     delete_object ex_doc (3, 0)%N = Some (d1, Some (ODict pd)) /\
-    anc_chain (d_objects d1) (as_ref (dict_get pd K_Parent)) l /\ NoDup (map anc_id l) /\
+    ref_chain (d_objects d1) (as_ref (dict_get pd K_Parent)) l /\ NoDup (map anc_id l) /\
     map anc_id l = [(2, 0)%N] /\
     page_iter (fst (delete_pages ex_doc [1%N])) = [(4, 0)%N] /\
     option_map (fun o => match o with ODict nd => dict_get nd K_Count | _ => None end)
@@ -620,10 +688,12 @@ Print Assumptions C11_strip_no_reference.
 Print Assumptions C11_delete_v0_refuted.
 Print Assumptions C11_resources_shadow_v0_refuted.
 Print Assumptions C11_resources_shadow_repaired_example.
-Print Assumptions C11_content_shared_refuted.
-Print Assumptions C11_content_indirect_refuted.
+Print Assumptions C11_content_shared_v0_refuted.
+Print Assumptions C11_content_shared_repaired_example.
+Print Assumptions C11_content_indirect_v0_refuted.
+Print Assumptions C11_content_indirect_repaired_example.
 Print Assumptions C11_add_page_contents_content.
-Print Assumptions C11_content_example_partial.
+Print Assumptions C11_content_example.
 Print Assumptions C11_change_content_stream_frame.
 Print Assumptions C11_change_content_stream_content.
 Print Assumptions C11_change_page_content_content.
@@ -643,6 +713,10 @@ Print Assumptions C11_frame_content_ops.
 Print Assumptions C11_frame_keeping_ops.
 Print Assumptions C11_count_loop_chain.
 Print Assumptions C11_delete_pages_one_chain.
+Print Assumptions C11_count_indirect_v0_refuted.
+Print Assumptions C11_page_reference_v0_refuted.
+Print Assumptions C11_count_repaired_examples.
+Print Assumptions C11_count_refs_example.
 Print Assumptions C11_count_example_partial.
 Print Assumptions C11_delete_pages_tree.
 Print Assumptions C11_delete_page_step.
